@@ -14,6 +14,11 @@ theorem len_eq (h : Hex) (w : h.WF) : h.toBytes.length = h.len := bytes_len h w
 /-- `from_slice`/`from_vec` hold exactly the bytes they were built from, in a well-formed representation -/
 theorem built_from (s : List UInt8) : (Hex.ofBytes s).toBytes = s ∧ (Hex.ofBytes s).WF := ⟨ofBytes_bytes s, ofBytes_wf s⟩
 
+/-- `Hex::empty()` holds no bytes, in a well-formed representation -/
+theorem empty_bytes : (default : Hex).toBytes = [] ∧ (default : Hex).WF := by
+  refine ⟨rfl, ?_⟩
+  simp [default, Hex.WF]
+
 theorem index_eq (h : Hex) (w : h.WF) (i : Nat) : h.index i = h.toBytes[i]? := Hx.index_eq h w i
 theorem range_eq (h : Hex) (w : h.WF) (s e : Nat) : h.range s e = sliceRange h.toBytes s e := Hx.range_eq h w s e
 theorem rangeFrom_eq (h : Hex) (w : h.WF) (s : Nat) : h.rangeFrom s = sliceRange h.toBytes s h.toBytes.length := Hx.rangeFrom_eq h w s
